@@ -57,7 +57,21 @@ AUDIT = ("generalisation classes: A sessions = streams ses (Independencies), jse
          "event3, out-of-range state, unknown context variable, non-normalised table, wrong-type is_imap/is_iequivalent/"
          "contains arguments, state unchanged afterwards; L orders = hash seeds, assertion order (reversed twin), shuffled "
          "edge insertion, every variable order for minimal_imap, random conditioning order, random CPD insertion and "
-         "parent order; M budget: handled by tools/check.py")
+         "parent order; M budget: handled by tools/check.py; N equal-not-identical = every name handed to a query, an "
+         "assertion, a context or a second graph is rebuilt at run time (strings re-concatenated, ints >= 257 re-parsed), "
+         "never the object stored in the model; O containers = assertion events as list/tuple/set/frozenset/generator/"
+         "iter/map/filter/dict/dict-keys; check_independence events additionally as numpy array and pandas Index; event3, "
+         "contexts and conditions as list/tuple/set/frozenset/dict/dict-keys; minimal_imap orders as list/tuple/ndarray/"
+         "Index; marginal_distribution as list/tuple/set/dict/single; DAG nodes and edges as list/tuple/set/generator/iter/"
+         "filter/dict-keys, also through the constructor.  NOT generated because the unchanged tree does not support them "
+         "and the docstrings say list / array-like: one-shot iterators for event3, condition=, values= and "
+         "marginal_distribution (consumed by the type checks), numpy/pandas for IndependenceAssertion events and for "
+         "event3/condition (truth value of an array), frozenset for marginal_distribution; P sizes = chains and binary "
+         "trees of 9/12/16/17/32/33 nodes with re-rootings, 6-variable multi-step closures with a premise disjoint from "
+         "the query, a 257-state variable, 9-10 variable tables; Q = tables accepted by np.isclose whose cells do not sum "
+         "to 1 (off by 2^-21..2^-24), CPDs typed with three decimals (column sum 0.999) in is_imap; R = latents x "
+         "is_iequivalent, absent event3 x condition_random_variable, container kind x name style x construction route, "
+         "torch x replaced CPD x random CPD order")
 RULE = RULE + "  " + AUDIT
 TRUSTED_BASE = ["DiscreteFactor marginalize/product/reduce/normalize and numpy.allclose (the model takes marginals as "
                 "sums of cells; factor algebra is property C01's subject)",
@@ -155,6 +169,16 @@ def cases(tier, seed):
         nodes, edges = common.rand_dag(rng, n)
         out.append({"kind": "ieqr", "n": n, "edges": edges, "style": rng.choice(common.NAME_STYLES + ["substr", "int"]),
                     "qseed": rng.randint(0, 10**9)})
+    # ---- (b') threshold sizes: chains / trees / forks of 9..33 nodes and their re-orientations
+    for n in (9, 12, 16, 17, 32, 33) if tier == "thorough" else (9, 16, 17, 33):
+        for shape_ in ("chain", "tree"):
+            out.append({"kind": "ieqc", "n": n, "shape": shape_, "qseed": rng.randint(0, 10**9)})
+    # ---- (a') six variables: multi-step derivations from small premises, one premise disjoint from the query
+    for i in range(10 if tier == "quick" else 150):
+        out.append({"kind": "clo6", "qseed": rng.randint(0, 10**9)})
+    # ---- (c'') a variable with more than 256 states
+    for i in range(3 if tier == "quick" else 30):
+        out.append({"kind": "j257", "qseed": rng.randint(0, 10**9)})
     # ---- (c) joint tables
     for i in range(110 if tier == "quick" else 2600):
         out.append({"kind": "jpd", "shape": rng.choice(SHAPES), "qseed": rng.randint(0, 10**9),
@@ -165,7 +189,7 @@ def cases(tier, seed):
         out.append({"kind": "ses", "n": nn, "steps": rng.randint(2, 6),
                     "qseed": rng.randint(0, 10**9)})
     for i in range(130 if tier == "quick" else 1500):
-        out.append({"kind": "jses", "shape": rng.choice(SHAPES + ["tiny", "card1", "single"]), "steps": rng.randint(2, 6),
+        out.append({"kind": "jses", "shape": rng.choice(SHAPES + ["tiny", "card1", "single", "unnormalised", "unnormalised"]), "steps": rng.randint(2, 6),
                     "style": rng.choice(["str", "str", "substr", "substr", "int", "mixed"]),
                     "route": rng.choice(["list", "ndarray", "buffer", "other.values"]),
                     "qseed": rng.randint(0, 10**9)})
@@ -181,7 +205,7 @@ def cases(tier, seed):
                     "cls": rng.choice(["DAG", "DAG", "BN"]), "rounds": rng.randint(2, 4),
                     "qseed": rng.randint(0, 10**9)})
     # sessions first: they must not be the ones dropped if the budget runs out on a loaded machine
-    out.sort(key=lambda c: 0 if c["kind"] in ("ses", "jses", "ged", "jbig") else 1)
+    out.sort(key=lambda c: 0 if c["kind"] in ("ses", "jses", "ged", "jbig", "ieqc", "clo6", "j257") else 1)
     return out
 
 
@@ -198,6 +222,57 @@ def shrink(case):
             c["hs"] = [h]
             yield c
 
+
+# ------------------------------------------------------------------ classes N / O helpers
+def fresh(x):
+    """an equal but NOT identical object: strings and big ints are rebuilt at run time, tuples re-made"""
+    if isinstance(x, bool):
+        return x
+    if isinstance(x, str):
+        return (x + "_")[:-1]
+    if isinstance(x, int):
+        return int(str(x))
+    if isinstance(x, tuple):
+        return tuple(fresh(e) for e in x)
+    if isinstance(x, list):
+        return [fresh(e) for e in x]
+    return x
+
+
+def container(rng, items, allowed):
+    """the items in one of the allowed container kinds (one-shot iterators included)"""
+    import numpy as np
+    import pandas as pd
+    kind = rng.choice(allowed)
+    items = list(items)
+    if kind == "list":
+        return kind, items
+    if kind == "tuple":
+        return kind, tuple(items)
+    if kind == "set":
+        return kind, set(items)
+    if kind == "frozenset":
+        return kind, frozenset(items)
+    if kind == "gen":
+        return kind, (x for x in items)
+    if kind == "iter":
+        return kind, iter(items)
+    if kind == "map":
+        return kind, map(lambda x: x, items)
+    if kind == "filter":
+        return kind, filter(lambda x: True, items)
+    if kind == "dictkeys":
+        return kind, dict.fromkeys(items).keys()
+    if kind == "dict":
+        return kind, dict.fromkeys(items)
+    if kind == "nparray":
+        return kind, np.array(items)
+    if kind == "pdindex":
+        return kind, pd.Index(items)
+    raise ValueError(kind)
+
+
+EVENT_FORMS = ["list", "tuple", "set", "frozenset", "gen", "iter", "map", "filter", "dictkeys", "dict"]
 
 # ------------------------------------------------------------------ (a) closure
 NAMEPOOL = ["X", "Y", "Z", "W", "V", "x1", "x10", "x", "alpha", "b", "Ab", "q_0", "u v", "G", "G2", "X1"]
@@ -242,8 +317,8 @@ def run_clo(case, drv):
     def mk(a):
         forms = []
         for e in a:
-            ev = [names[i] for i in e]
-            forms.append(ev[0] if len(ev) == 1 and rng.random() < 0.5 else (tuple(ev) if rng.random() < 0.3 else ev))
+            ev = [fresh(names[i]) for i in e]
+            forms.append(ev[0] if len(ev) == 1 and rng.random() < 0.5 else container(rng, ev, EVENT_FORMS)[1])
         return IndependenceAssertion(*forms)
 
     def canon_impl(ind):
@@ -350,12 +425,27 @@ def py_skeleton(edges):
     return {frozenset(e) for e in edges}
 
 
-def mk_dag(names, edges, extra=()):
+def mk_dag(names, edges, extra=(), rng=None, latents=()):
+    """every DAG object gets its own equal-but-not-identical name objects; with rng the nodes / edges arrive in a
+    random container kind (one-shot iterators included), sometimes through the constructor"""
     from pgmpy.base import DAG
-    g = DAG()
-    g.add_nodes_from(names)
+    nm = [fresh(x) for x in names]
+    es = [(nm[u], nm[v]) for u, v in edges]
+    if rng is None:
+        g = DAG()
+        g.add_nodes_from(nm)
+        g.add_nodes_from(extra)
+        g.add_edges_from(es)
+        return g
+    kinds = ["list", "tuple", "set", "gen", "iter", "dictkeys", "filter"]
+    if rng.random() < 0.4:
+        g = DAG(container(rng, es, kinds)[1], latents={nm[v] for v in latents})
+        g.add_nodes_from(container(rng, nm, kinds)[1])
+    else:
+        g = DAG(latents={nm[v] for v in latents})
+        g.add_nodes_from(container(rng, nm, kinds)[1])
+        g.add_edges_from(container(rng, es, kinds)[1])
     g.add_nodes_from(extra)
-    g.add_edges_from([(names[u], names[v]) for u, v in edges])
     return g
 
 
@@ -453,7 +543,7 @@ def run_ieqr(case, drv):
     if case["style"] == "substr":
         names = rng.sample(["x", "x1", "x10", "x11", "G", "G2", "G20", "1", "10", "a", "ab", "abc", "n", "node"], n)
     elif case["style"] == "int":
-        names = rng.sample(range(0, n + 4), n)
+        names = rng.sample(range(0, n + 4), n) if rng.random() < 0.5 else rng.sample(range(257, 257 + 4 * n), n)
     else:
         names = common.node_names(rng, n, case["style"])
     eg = [tuple(e) for e in case["edges"]]
@@ -472,8 +562,9 @@ def run_ieqr(case, drv):
         elif mode == "isolated":
             extra = ["__iso%d" % t]
         rng.shuffle(eh)
-        g = mk_dag(names, eg)
-        h = mk_dag(names, eh, extra)
+        lat = rng.sample(range(n), rng.randint(0, 2)) if rng.random() < 0.3 else []   # latents never matter here
+        g = mk_dag(names, eg, rng=rng, latents=lat)
+        h = mk_dag(names, eh, extra, rng=rng)
         b = cmp_ieq(drv, g, h, eg, eh, {"n": n, "g": eg, "h": eh, "mode": mode})
         if b:
             return b
@@ -820,6 +911,8 @@ def check_is_imap(drv, jpd, J, names, cards, cells, asg, edges, key, rng=None, t
             # replace the CPD of one variable by a different (uniform-ish) one, on the same network object
             v = rng.randrange(nv)
             w_ = [Fraction(1, cards[v])] * cards[v] if cards[v] != 3 else [Fraction(1, 2), Fraction(1, 4), Fraction(1, 4)]
+            if rng.random() < 0.5:   # typed with three decimals: the column sums to 0.999, not 1
+                w_ = [Fraction(x) for x in ({1: [0.999], 2: [0.5, 0.499], 3: [0.333, 0.333, 0.333]}[cards[v]])]
             tabs[v] = [[w_[s_]] * len(cols_of[v]) for s_ in range(cards[v])]
             bn.add_cpds(cpd(v))
             if len(bn.get_cpds()) != nv:
@@ -852,7 +945,7 @@ def run_ses(case, drv):
     key = common.canon_key(["ses", n, case["steps"], case["qseed"]])
 
     def mk(a):
-        return IndependenceAssertion(*[[names[i] for i in e] for e in a])
+        return IndependenceAssertion(*[container(rng, [fresh(names[i]) for i in e], EVENT_FORMS)[1] for e in a])
 
     def canon_impl(lst):
         return sorted((sorted(map(sorted, k[0])), sorted(k[1])) for k in
@@ -1082,6 +1175,13 @@ def run_jses(case, drv):
         cells = {(a, b, c): pa[a] * Fraction(1, 2) * (pb[b if dep else 0][c]) for a in range(2) for b in range(2) for c in range(2)}
         if not all(Fraction(float(v)) == v for v in cells.values()):
             cards, cells = make_table(rng, "generic")
+    elif shape == "unnormalised":
+        # a valid table whose cells do not sum to exactly 1 (np.isclose accepts it): nothing may assume sum == 1
+        cards, cells = make_table(rng, rng.choice(["product", "generic", "condind"]))
+        k0 = rng.choice(sorted(cells))
+        cells[k0] = cells[k0] + Fraction(rng.choice((1, -1)), 1 << rng.choice((21, 22, 24)))
+        if cells[k0] < 0:
+            cells[k0] = -cells[k0]
     else:
         cards, cells = make_table(rng, shape)
     nv = len(cards)
@@ -1141,7 +1241,7 @@ def run_jses(case, drv):
     for op in plan:
         nvn = len(st["cards"])
         V = list(range(nvn))
-        nm = st["names"]
+        nm = [fresh(x) for x in st["names"]]     # equal, never identical, to the objects stored in the table
         cd = st["cards"]
         perm = V[:]
         rng.shuffle(perm)
@@ -1152,12 +1252,18 @@ def run_jses(case, drv):
         if op.startswith("check") and e2:
             m_ex, m_tol, c_ex, c_tol, x_ex, x_tol = drv.call("c18_checkind", J()[:3] + [e1, e2, zs, ctx, ATOL, RTOL])
             n1, n2 = [nm[v] for v in e1], [nm[v] for v in e2]
-            a1, a2 = list(n1), list(n2)
+            EV = ["list", "tuple", "set", "frozenset", "gen", "iter", "map", "filter", "dictkeys", "dict", "nparray", "pdindex"]
+            if any(isinstance(x, int) for x in n1 + n2) and any(isinstance(x, str) for x in n1 + n2):
+                EV = EV[:-2]                      # numpy / pandas would coerce mixed int/str names
+            k1, a1 = container(rng, n1, EV)
+            k2, a2 = container(rng, n2, EV)
+            tags.append("jpd-session events=%s/%s" % (k1, k2))
             if op == "check-marg":
-                got, exp = jpd.check_independence(a1, a2, rng.choice([None, [], ()])), bool(m_tol)
+                # absent event3 in every spelling, with and without condition_random_variable (the flag is irrelevant)
+                got = jpd.check_independence(a1, a2, rng.choice([None, [], ()]), rng.random() < 0.5)
+                exp = bool(m_tol)
             elif op == "check-rv":
-                a3 = [nm[v] for v in zs]
-                a3 = tuple(a3) if rng.random() < 0.3 else a3
+                a3 = container(rng, [nm[v] for v in zs], ["list", "tuple", "set", "frozenset", "dictkeys", "dict"])[1]
                 if all(isinstance(nm[v], str) for v in zs):
                     got, exp = jpd.check_independence(a1, a2, a3, condition_random_variable=True), bool(c_tol)
                 else:
@@ -1167,8 +1273,8 @@ def run_jses(case, drv):
                     except TypeError:
                         got = exp = None
             else:
-                a3 = [(nm[v], x) for v, x in ctx]
-                snap = list(a3)
+                a3 = container(rng, [(nm[v], x) for v, x in ctx], ["list", "list", "tuple", "set", "frozenset", "dictkeys", "dict"])[1]
+                snap = a3 if not isinstance(a3, list) else list(a3)
                 try:
                     got = jpd.check_independence(a1, a2, a3)
                 except ValueError:
@@ -1178,7 +1284,8 @@ def run_jses(case, drv):
                     return bad("impl!=spec:session-check_independence-mutates-argument", w(), key=key)
             if got is not exp:
                 return bad("impl!=model:session-check_independence", w(impl=got, model=exp), key=key)
-            if a1 != n1 or a2 != n2:
+            if (k1 == "list" and a1 != n1) or (k2 == "list" and a2 != n2) or (k1 == "set" and a1 != set(n1)) \
+                    or (k2 == "dict" and list(a2) != n2):
                 return bad("impl!=spec:session-check_independence-mutates-argument", w(), key=key)
         elif op == "empty-event":
             if jpd.check_independence([], [nm[0]]) is not True or jpd.check_independence([nm[0]], []) is not True:
@@ -1191,7 +1298,8 @@ def run_jses(case, drv):
             arg = [(nm[v], x) for v, x in cz]
             for rep in range(2):        # twice: the first result is mutated in between
                 try:
-                    ind = jpd.get_independencies(list(arg) or None)
+                    carg = container(rng, arg, ["list", "tuple", "set", "frozenset", "dictkeys", "dict"])[1] if arg else None
+                    ind = jpd.get_independencies(carg)
                     got = {frozenset((nm.index(next(iter(a.event1))), nm.index(next(iter(a.event2)))))
                            for a in ind.get_assertions()}
                     ind.add_assertions([nm[0], nm[-1]] if nvn > 1 else [nm[0], "zz"])
@@ -1205,8 +1313,8 @@ def run_jses(case, drv):
             keep = sorted(rng.sample(V, rng.randint(1, nvn)))
             trace[-1] = [op, keep]
             arg = [nm[v] for v in keep]
-            form = rng.choice(["list", "tuple", "set", "single"]) if len(arg) > 1 else rng.choice(["list", "single"])
-            a_ = {"list": list(arg), "tuple": tuple(arg), "set": set(arg), "single": arg[0]}[form]
+            form = rng.choice(["list", "tuple", "set", "dict", "single"]) if len(arg) > 1 else rng.choice(["list", "dict", "single"])
+            a_ = {"list": list(arg), "tuple": tuple(arg), "set": set(arg), "dict": dict.fromkeys(arg), "single": arg[0]}[form]
             if form == "single":
                 if isinstance(arg[0], tuple):
                     a_ = [arg[0]]
@@ -1223,7 +1331,8 @@ def run_jses(case, drv):
             trace[-1] = [op, cz]
             pz = py_marg(cd, st["cells"], [v for v, _ in cz], [x for _, x in cz])
             try:
-                c = jpd.conditional_distribution([(nm[v], x) for v, x in cz], inplace=False)
+                c = jpd.conditional_distribution(container(rng, [(nm[v], x) for v, x in cz],
+                                                           ["list", "tuple", "set", "frozenset", "dictkeys", "dict"])[1], inplace=False)
             except ValueError:
                 c = None
             if (c is None) != (pz == 0):
@@ -1287,7 +1396,7 @@ def run_jses(case, drv):
                 pass
         elif op == "minimal_imap" and strnames and 2 <= nvn <= 3:
             order = perm[:]
-            oarg = [nm[v] for v in order]
+            okind, oarg = container(rng, [nm[v] for v in order], ["list", "tuple", "nparray", "pdindex"])
             snap = list(oarg)
             es_ex, es_tol, fact = drv.call("c18_minimap", J()[:3] + [order, ATOL, RTOL])
             exp = sorted({tuple(e) for e in es_tol})
@@ -1297,7 +1406,7 @@ def run_jses(case, drv):
                 if got != exp:
                     return bad("impl!=model:session-minimal_imap", w(order=order, rep=rep, impl=got, model=exp), key=key)
                 G.add_edge("junk", nm[0])
-            if oarg != snap:
+            if list(oarg) != snap:
                 return bad("impl!=spec:session-minimal_imap-mutates-order", w(), key=key)
         if not same_state():
             return bad("impl!=spec:session-query-mutated-the-table", w(variables=list(map(str, jpd.variables)),
@@ -1438,13 +1547,14 @@ def run_ged(case, drv):
                 if start in Z:
                     continue
                 exp = m_atn(start, Z)
-                got = {idx[v] for v in g.active_trail_nodes(names[start], observed=[names[v] for v in Z])[names[start]]}
+                zk, zarg = container(rng, [fresh(names[v]) for v in Z], ["list", "tuple", "set", "list"])
+                got = {idx[v] for v in g.active_trail_nodes(fresh(names[start]), observed=zarg)[names[start]]}
                 if got != exp:
                     return bad("impl!=model:graph-edit-active_trail_nodes",
                                where(stage=stage, start=start, Z=Z, impl=sorted(got), model=sorted(exp)), key=key)
             for a, b in pairs_q:
                 if a in nodes and b in nodes and a not in Z and b not in Z:
-                    d = g.is_dconnected(names[a], names[b], observed=[names[v] for v in Z])
+                    d = g.is_dconnected(fresh(names[a]), fresh(names[b]), observed=[fresh(names[v]) for v in Z])
                     if d is not (b in m_atn(a, Z)):
                         return bad("impl!=model:graph-edit-is_dconnected",
                                    where(stage=stage, x=a, y=b, Z=Z, impl=d, model=b in m_atn(a, Z)), key=key)
@@ -1452,7 +1562,7 @@ def run_ged(case, drv):
         eset = set(edges)
         for a, b in pairs_q:
             if a in nodes and b in nodes and (a, b) not in eset and (b, a) not in eset:
-                r = g.minimal_dseparator(names[a], names[b])
+                r = g.minimal_dseparator(fresh(names[a]), fresh(names[b]))
                 if r is None:
                     return bad("impl!=spec:graph-edit-minimal_dseparator-none", where(stage=stage, x=a, y=b), key=key)
                 sep = sorted(idx[v] for v in r)
@@ -1462,10 +1572,10 @@ def run_ged(case, drv):
                     if b not in m_atn(a, [t for t in sep if t != u]):
                         return bad("impl!=spec:graph-edit-minimal_dseparator-not-minimal", where(stage=stage, x=a, y=b, sep=sep, drop=u), key=key)
         # I-equivalence of the edited object with the (fresh) initial graph and with a fresh copy of itself
-        fresh = DAG()
-        fresh.add_nodes_from([names[v] for v in nodes])
-        fresh.add_edges_from([(names[a], names[c]) for a, c in edges])
-        for other, oe, who in ((partner, partner_edges, "initial"), (fresh, list(edges), "fresh-copy")):
+        fresh_g = DAG()
+        fresh_g.add_nodes_from([fresh(names[v]) for v in nodes])
+        fresh_g.add_edges_from([(fresh(names[a]), fresh(names[c])) for a, c in edges])
+        for other, oe, who in ((partner, partner_edges, "initial"), (fresh_g, list(edges), "fresh-copy")):
             m = bool(drv.call("c18_iequiv", [[list(e) for e in edges], [list(e) for e in oe]])[0])
             if g.is_iequivalent(other) is not m or other.is_iequivalent(g) is not m:
                 return bad("impl!=model:graph-edit-is_iequivalent", where(stage=stage, other=who, model=m), key=key)
@@ -1597,6 +1707,113 @@ def run_ged(case, drv):
     return ok(nontrivial=True, key=key, tags=tags)
 
 
+def run_ieqc(case, drv):
+    """chains and binary trees of 9..33 nodes: the root-oriented graph against re-rootings (equivalent: no collider)
+    and against graphs with one edge flipped into a collider"""
+    rng = random.Random(case["qseed"])
+    n = case["n"]
+    if case["shape"] == "chain":
+        und = [(i, i + 1) for i in range(n - 1)]
+    else:
+        und = [((i - 1) // 2, i) for i in range(1, n)]
+    nb = {}
+    for a, b in und:
+        nb.setdefault(a, []).append(b)
+        nb.setdefault(b, []).append(a)
+
+    def rooted(r):
+        seen, todo, es = {r}, [r], []
+        while todo:
+            u = todo.pop()
+            for v in nb.get(u, []):
+                if v not in seen:
+                    seen.add(v)
+                    es.append((u, v))
+                    todo.append(v)
+        return es
+    names = ["n%d" % i for i in range(n)] if rng.random() < 0.5 else list(range(300, 300 + n))
+    perm = list(range(n))
+    rng.shuffle(perm)
+    names = [names[i] for i in perm]
+    eg = rooted(0)
+    for t in range(5):
+        eh = rooted(rng.randrange(n))
+        if t >= 3:   # flip one edge: usually creates or destroys a collider
+            k = rng.randrange(len(eh))
+            eh = eh[:k] + [(eh[k][1], eh[k][0])] + eh[k + 1:]
+        rng.shuffle(eh)
+        g = mk_dag(names, eg, rng=rng)
+        h = mk_dag(names, eh, rng=rng)
+        b = cmp_ieq(drv, g, h, eg, eh, {"n": n, "shape": case["shape"], "h": eh}) or \
+            cmp_ieq(drv, h, g, eh, eg, {"n": n, "shape": case["shape"], "h": eh, "sym": True})
+        if b:
+            return b
+    return ok(nontrivial=True, key=common.canon_key(["ieqc", n, case["shape"], case["qseed"]]),
+              tags=["iequiv %s n=%d" % (case["shape"], n)])
+
+
+def run_clo6(case, drv):
+    """six variables, premises with single-variable events: a chain of contractions / weak unions reaches a statement
+    whose variables are disjoint from one of the premises it needs; compared like every closure case"""
+    rng = random.Random(case["qseed"])
+    v = list(range(6))
+    rng.shuffle(v)
+    a, b, c, d, e, f = v
+    # a _|_ b ; a _|_ c | b ; a _|_ d | b,c   =>  a _|_ b,c,d  (repaired rule) ; plus an unrelated premise e _|_ f
+    A = [[[a], [b], []], [[a], [c], [b]], [[a], [d], sorted([b, c])], [[e], [f], []]]
+    if rng.random() < 0.5:
+        A.append([[a], [e], sorted([b, c, d])])
+    rng.shuffle(A)
+    A = A[: rng.randint(3, len(A))]
+    return run_clo({"kind": "clo", "n": 6, "A": A, "qseed": case["qseed"]}, drv)
+
+
+def run_j257(case, drv):
+    """a variable with 257 states (and a binary one): product form or one moved cell"""
+    import numpy as np
+    from pgmpy.factors.discrete import JointProbabilityDistribution as JPD
+    rng = random.Random(case["qseed"])
+    big = [Fraction(1, 512)] * 256 + [Fraction(1, 2)]
+    rng.shuffle(big)
+    two = [Fraction(1, 4), Fraction(3, 4)]
+    order_big_first = rng.random() < 0.5
+    cards = [257, 2] if order_big_first else [2, 257]
+    cells = {}
+    for sb in range(257):
+        for s2 in range(2):
+            cells[(sb, s2) if order_big_first else (s2, sb)] = big[sb] * two[s2]
+    dep = rng.random() < 0.5
+    if dep:
+        hi = rng.choice([256, 255, 128, big.index(Fraction(1, 2))])
+        k0 = (hi, 0) if order_big_first else (0, hi)
+        k1 = (hi, 1) if order_big_first else (1, hi)
+        cells[k0] += Fraction(1, 2048)
+        cells[k1] -= Fraction(1, 2048)
+    names = [fresh("big"), fresh("x2")] if order_big_first else [fresh("x2"), fresh("big")]
+    bi, xi = names.index("big"), names.index("x2")
+    asg = list(itertools.product(*map(range, cards)))
+    jpd = JPD(names, cards, np.array([float(cells[a]) for a in asg]))
+    J = [[0, 1], cards, [[list(a), cells[a]] for a in asg]]
+    m_ex, m_tol = drv.call("c18_checkind", J + [[bi], [xi], [], [], ATOL, RTOL])[:2]
+    got = jpd.check_independence([fresh("big")], [fresh("x2")])
+    g_tol = drv.call("c18_getind", J + [[], ATOL, RTOL])[1]
+    gi = {frozenset((names.index(next(iter(a.event1))), names.index(next(iter(a.event2)))))
+          for a in jpd.get_independencies().get_assertions()}
+    key = common.canon_key(["j257", case["qseed"]])
+    if got is not bool(m_tol) or gi != {frozenset(p_) for p_ in g_tol[0]} or bool(m_ex) == dep:
+        return bad("impl!=model:257-states", {"qseed": case["qseed"], "dependent": dep, "impl": [got, sorted(map(sorted, gi))],
+                                               "model": [m_tol, g_tol], "exact": m_ex}, key=key)
+    sb = 256
+    ctx = [(fresh("big"), sb)]
+    pz = sum(p_ for a_, p_ in cells.items() if a_[0 if order_big_first else 1] == sb)
+    c = jpd.conditional_distribution(ctx, inplace=False)
+    for s2 in range(2):
+        e_ = cells[(sb, s2) if order_big_first else (s2, sb)] / pz
+        if not common.approx(float(c.values[s2]), e_):
+            return bad("impl!=model:257-states-conditional", {"qseed": case["qseed"], "state": s2, "model": str(e_)}, key=key)
+    return ok(nontrivial=True, key=key, tags=["jpd 257 states dependent=%s" % dep])
+
+
 def run_case(case, drv):
     k = case["kind"]
     if k == "clo":
@@ -1617,4 +1834,10 @@ def run_case(case, drv):
         return run_jses(case, drv)
     if k == "jbig":
         return run_jbig(case, drv)
+    if k == "ieqc":
+        return run_ieqc(case, drv)
+    if k == "clo6":
+        return run_clo6(case, drv)
+    if k == "j257":
+        return run_j257(case, drv)
     return bad("harness:unknown-case-kind", {"kind": k})
